@@ -1,6 +1,7 @@
 CONSTANT NMsg = 4
 CONSTANT Cap = 2
 CONSTANT WaitForWriters = TRUE
+CONSTANT WriteFailsAt = 0
 SPECIFICATION Spec
 INVARIANT AllWrittenAtReturn
 INVARIANT WrittenPrefix
